@@ -105,6 +105,10 @@ def ret_class(t):
         return "VOID"
     if t.kind == "x87":
         return ["X87"]
+    # psABI 3.2.3: a struct/union whose eightbytes are (X87, X87UP) -- every scalar is a long double at offset 0 of a
+    # 16-byte object -- is passed in memory but RETURNED in st(0)
+    if t.kind == "struct" and t.size == 16 and t.fields and all(off == 0 and ft.kind == "x87" for off, ft in t.fields):
+        return ["X87"]
     return classify(t)
 
 
